@@ -3,6 +3,7 @@ import TongoProofs.Lemmas.CellTable
 import TongoProofs.Lemmas.HashMemo
 import TongoProofs.Lemmas.CellNoPanic
 import TongoProofs.Lemmas.CellErr
+import TongoProofs.Lemmas.CellCursor
 import TongoProofs.C07
 import TongoGen.LevelMask
 import TongoGen.CellDesc
@@ -190,7 +191,8 @@ theorem short_pruned_reads_padding (H : List UInt8 → List UInt8) :
     rw [if_pos (by decide), if_pos (by decide +kernel)]
     decide +kernel
   have hspec : Spec.hashAt H shortPrunedChild 0 = [] := by
-    simp only [shortPrunedChild, Spec.hashAt, Spec.hashLevel, Spec.hashAtL, Spec.depthAtL, Spec.storedHash, hb2,
+    simp only [shortPrunedChild, Spec.hashAt, Spec.hashLevel, Spec.hashAtL, Spec.depthAtL, Spec.storedHash,
+      packBytes_eq _ _ rfl, hb2,
       show Spec.level 1 = 1 from by decide]
     rw [if_pos (by decide)]
     decide
@@ -239,6 +241,21 @@ theorem hasher_calls_sound (H : List UInt8 → List UInt8) (heap : Memo.Heap) (f
 /-- the empty Hasher (`NewHasher()`) is a valid state -/
 theorem new_hasher_valid (H : List UInt8 → List UInt8) (heap : Memo.Heap) : Memo.StateInv H heap ⟨[], []⟩ :=
   ⟨by intro p i h; simp at h, by intro p s h; simp at h⟩
+
+/-- **The hash does not depend on what has been read.** `Cursor.RCell` is a cell tree in which every node carries
+agent bits' byte-level `BitString` (buffer, length, read cursor — the model of boc/bitString.go proved against the
+ideal bit list in C06) and a reference cursor. After ANY number of reads anywhere in the tree — every read-only
+bit-string method (`ReadBit`, `Skip`, `ReadUint`, `PickUint`, `ReadInt`, `ReadBytes`, `ReadBits`, `ReadRemainingBits`,
+`ReadBigUint/Int`, `ReadUnary`, `ReadLimUint`, `ResetCounter`) with any well-formed argument, successful or failing, and
+any movement of the reference cursors (`NextRef`, `ResetCounters`) — the cell hashing sees (`content`: the bits
+`buf[0..len)`, no cursor) is the same, hence so are all hashes, depths, errors. (The byte-level operations really are
+modelled with their cursor arithmetic; that they leave `buf`/`len` alone is C06's `op_refines`.) -/
+theorem hash_ignores_reads (H : List UInt8 → List UInt8) (a b : Cursor.RCell) (h : Cursor.Reads a b) :
+    Cursor.content a = Cursor.content b ∧
+    Cell.info H (Cursor.content a) = Cell.info H (Cursor.content b) ∧
+    Cell.reprHash H (Cursor.content a) = Cell.reprHash H (Cursor.content b) := by
+  have e := Cursor.reads_content h
+  exact ⟨e, by rw [e], by rw [e]⟩
 
 /-- **The hash is structural.** Two pointers — in any two heaps, with any two valid memo tables — that denote the same
 tree `(type, mask, bits, refs…)` get the same answer: the result is a function of the tree alone (no read cursor, no
@@ -397,6 +414,16 @@ theorem gen_toppedUp (bits : List Bool) (h : bits.length < 2^62) :
 theorem gen_depthBytes (d : Nat) (h : d < 2^63) :
     Gen.CellDesc.depthBytes (BitVec.ofNat 64 d) = (Tongo.be16 d).map UInt8.toBitVec :=
   GenTies.gen_depthBytes d h
+/-- non-vacuity of `hash_ignores_reads`: a cell whose data were read (`ReadUint 5`, then a failing `ReadBits 300`)
+and whose reference cursor moved -/
+example : Cursor.Reads
+    (.mk 0 0 ⟨[0xa5, 0xc0], 16, 10, 0⟩ [.mk 0 0 ⟨[0xe0], 8, 3, 0⟩ [] 0] 0)
+    (.mk 0 0 ((Op.readBits 300).run ((Op.readUint 5).run ⟨[0xa5, 0xc0], 16, 10, 0⟩).2).2
+      [.mk 0 0 ⟨[0xe0], 8, 3, 0⟩ [] 0] 1) :=
+  .step (.bits 0 0 _ _ 0 (.readUint 5) rfl (by decide) (by decide +kernel))
+    (.step (.bits 0 0 _ _ 0 (.readBits 300) rfl (by decide) (by decide +kernel))
+      (.step (.refCursor 0 0 _ _ 0 1) (.refl _)))
+
 /-! Merkle updates with pruned branches on both sides (the `state_update` of a real block): `WFExotic` admits them
 (two refs, `04 hash hash depth depth`, mask = (mask₁ ∨ mask₂) >> 1), so `impl_eq_spec` applies. -/
 
